@@ -317,6 +317,39 @@ def run(ctx):
                                  "mpint is not RFC 4251 canonical (zero must be the empty string)" if v == 0
                                  else "mpint is not the minimal two's complement form",
                                  case={"z": v}, expected=rfc4251_mpint(v), observed=got)
+    # large fields (implementation only: the literals would be too big for cases.v): sizes around the 1 MiB
+    # zero-padding bound of get_bytes and well beyond it, for every length-prefixed kind, followed by a sentinel
+    for size in [(1 << 20) - 1, 1 << 20, (1 << 20) + 1, (1 << 20) + 4097, 3 << 20]:
+        blob = bytes((size * 31 + 7 * i) & 0xFF for i in range(253)) * (size // 253 + 1)
+        blob = blob[:size]
+        big = int.from_bytes(b"\x01" + blob, "big")
+        for kind, val, put, get in [
+                ("string", blob, lambda m, v: m.add_string(v), lambda m: m.get_string()),
+                ("binary", blob, lambda m, v: m.add_string(v), lambda m: m.get_binary()),
+                ("text", blob.hex()[:size], lambda m, v: m.add_string(v), lambda m: m.get_text()),
+                # deflate_long / inflate_long are quadratic: ~1 min per MiB, so integers of that size only in the
+                # thorough tier and only at the boundary (get_mpint reads through the same get_binary)
+                ("mpint", big, lambda m, v: m.add_mpint(v), lambda m: m.get_mpint()),
+                ("bytes", blob, lambda m, v: m.add_bytes(v), lambda m: m.get_bytes(size))]:
+            if kind == "mpint" and not (ctx.thorough and size == (1 << 20) + 1):
+                continue
+            case = {"kind": kind, "size": size}
+            ctx.count(("large", kind, size), nontrivial=True, kind="large-field")
+            try:
+                m = Message()
+                put(m, val)
+                m.add_int(0xC0FFEE)
+                r = Message(m.asbytes())
+                back, sentinel, rest = get(r), r.get_int(), r.get_remainder()
+            except Exception as e:  # noqa
+                ctx.fail("roundtrip-raises", "reading back a %d-byte %s field raised %s" % (size, kind, type(e).__name__),
+                         case=case, expected="round trip", observed=repr(e))
+                continue
+            if back != val or sentinel != 0xC0FFEE or rest != b"":
+                ctx.fail("roundtrip", "a %d-byte %s field is not read back unchanged (or the field after it is misread)"
+                         % (size, kind), case=case, expected="same value, sentinel 0xC0FFEE, nothing left",
+                         observed={"same": back == val, "len": len(back) if hasattr(back, "__len__") else None,
+                                   "sentinel": sentinel, "left": len(rest)})
     # zero is always exercised
     got = Message().add_mpint(0).asbytes()
     ctx.count(("mpint0",), kind="encode")
